@@ -374,6 +374,63 @@ def history_stream(ctx, cases, jobs=None):
                      "first_difference": c17.first_diff(strip(b), strip(a))})
 
 
+
+def impl_twice(job):
+    """flatten(m) twice on the very same module object — the caller having added to / renamed things in the first result in between —
+    and, for a design that cannot be flattened, the refusal twice. -> what each call returned, as impl_flatten describes it"""
+    from hdl21.flatten import flatten
+
+    d, style = job["case"]["design"], job["case"].get("style", "proc")
+    try:
+        b = build.build(d, style)
+    except Exception as ex:  # noqa
+        return {"build_error": common.errstr(ex)}
+
+    def describe(flat):
+        return {"name": flat.name, "ports": [[p.name, p.width] for p in flat.ports.values()], "signals": sorted(flat.signals.keys()),
+                "insts": [[i.name, sorted([p, getattr(c, "name", "?")] for p, c in i.conns.items())] for i in flat.instances.values()]}
+
+    out = []
+    first = None
+    for k in range(2):
+        try:
+            flat = flatten(b.top)
+        except Exception as ex:  # noqa
+            out.append({"refused": type(ex).__name__})
+            continue
+        out.append({"flat": describe(flat), "same_as_first": first is not None and flat is first, "is_input": flat is b.top})
+        if k == 0:
+            first = flat
+            if job.get("edit") and flat is not b.top:
+                # the first result is the caller's: a probe point added, an instance taken out
+                try:
+                    flat.add(h.Signal(name="zz_probe"))
+                    if flat.instances:
+                        nm = next(iter(flat.instances))
+                        inst = flat.instances.pop(nm)
+                        flat.namespace.pop(nm, None)
+                except Exception as ex:  # noqa
+                    out[-1]["edit_refused"] = common.errstr(ex)
+    return {"calls": out}
+
+
+def twice_stream(ctx, cases):
+    """flatten has no memory of its own results either: the second call on the same module answers as the first did (as a fresh
+    process does), whether the first was refused or its result has been edited since."""
+    rep, rng = ctx.rep, ctx.rng
+    jobs = [{"case": c, "edit": rng.random() < 0.6} for c in cases]
+    for j, r in zip(jobs, common.pmap_fresh(impl_twice, jobs)):
+        rep.count("twice", json.dumps([j["case"]["design"], j["edit"]]))
+        if "build_error" in r:
+            continue
+        a, b = r["calls"]
+        case = {"stream": "twice", "case": j["case"], "edit": j["edit"]}
+        if ("refused" in a) != ("refused" in b):
+            rep.fail("pred", case, {"why": "flatten(m) twice: once refused, once answered", "first": a, "second": b})
+        elif "flat" in a and a["flat"] != b["flat"]:
+            rep.fail("pred", case, {"why": "the second flatten(m) returns something else than the first returned (the caller's edits of the first result came back)",
+                                    "first": a["flat"], "second": b["flat"]})
+
 def run_cases(ctx, cases):
     impls = common.pmap_fresh(impl_flatten, cases)  # one design per process: flatten after flatten is the history stream's business
     lines = []
@@ -461,6 +518,7 @@ def run(ctx):
                         found = True
         rep.extra["failing_input_search"] = {"designs": extra, "found": found, "seconds": round(time.time() - t0, 1)}
     history_stream(ctx, [c for c in cases if c.get("stream") != "colon_names"][: (60 if ctx.quick else 1000)])
+    twice_stream(ctx, cases[: (40 if ctx.quick else 600)] + [c for c in cases if c.get("stream") == "colon_names"][: (30 if ctx.quick else 300)])
     rep.extra["flatten_stats"] = stats
     rep.sample({"design": cases[3]["design"]})
 
@@ -469,6 +527,16 @@ def replay(ctx, rp):
     case = rp["case"]["case"]
     if rp["case"].get("stream") == "history":
         return common.replay_by_rerun(ctx, rp, lambda c: history_stream(c, None, jobs=[rp["case"]["job"]]))
+    if rp["case"].get("stream") == "twice":
+        def rerun(c):
+            c.rng = __import__("random").Random(0 if rp["case"].get("edit") else 1)
+            # the recorded job exactly: same design, same decision about editing
+            r = common.pmap_fresh(impl_twice, [{"case": case, "edit": rp["case"].get("edit")}])[0]
+            if "calls" in r:
+                a, b = r["calls"]
+                if ("refused" in a) != ("refused" in b) or ("flat" in a and a["flat"] != b["flat"]):
+                    c.rep.fail("pred", rp["case"], {"why": "flatten(m) twice disagrees", "first": a, "second": b})
+        return common.replay_by_rerun(ctx, rp, rerun)
     (c, im, mo, sem_src, sem_flat), = run_cases(ctx, [case])
     fails = list(judge(c, im, mo, sem_src, sem_flat))
     print(json.dumps({"failures": fails, "refused": im.get("refused")}, default=str)[:3000])
